@@ -78,8 +78,52 @@ def chan_calls(nodes, actor, chan, op, what=None):
     return out
 
 
+_TIMED_CONTROL = '''
+def work(barrier, q):
+    try:
+        barrier.wait(timeout=10)
+    except Exception:
+        pass
+    done.wait(5)
+    q.get()
+    t.join(timeout=10)
+'''
+
+
+def timed_waits(tree):
+    """waits of the protocol that give up after a while: Barrier / Event / Condition .wait(timeout) - when the time runs out the code
+    goes on as if what it waited for had happened (join(timeout) on a helper that is being shut down is not one of them)"""
+    out = []
+    for c in ast.walk(tree):
+        if isinstance(c, ast.Call) and isinstance(c.func, ast.Attribute) and c.func.attr in ('wait', 'wait_for', 'acquire'):
+            timed = [k for k in c.keywords if k.arg == 'timeout' and not (isinstance(k.value, ast.Constant) and k.value.value is None)]
+            if c.func.attr == 'wait' and c.args:
+                timed.append(c.args[0])
+            if c.func.attr == 'wait_for' and len(c.args) > 1:
+                timed.append(c.args[1])
+            if c.func.attr == 'acquire' and not timed:
+                continue
+            if timed:
+                out.append(c)
+    return out
+
+
 def check(ctx):
     run, repo, res = ctx.run, ctx.repo, ctx.res
+    # decided before the channel model is built: a protocol that was restructured beyond what the model recognises still must not
+    # contain a wait that gives up
+    run.rule('R21', 'QUEUE-PROTOCOL (g0): no wait of the protocol gives up after a timeout')
+    got = sorted(u(c) for c in timed_waits(ast.parse(_TIMED_CONTROL)))
+    if got != ['barrier.wait(timeout=10)', 'done.wait(5)']:
+        raise AnalysisError('timed-wait self-check failed: %s' % got)
+    pm = repo.modules[P]
+    tw = timed_waits(pm.tree)
+    for c in tw:
+        run.fail('R21', where(repo, c), P, '(g0) ' + u(c),
+                 'a wait of the protocol gives up after a timeout: when a worker is still busy (a slow row function) the others go on as if '
+                 'it had arrived, end markers overtake the row in flight and it is lost or delivered with the next resource')
+    if not tw:
+        run.ok('R21', pm.relpath, '(g0) no timed wait in %s' % P)
     model, C, W, F, Pr, I, O, D = topology(ctx)
     prod, fetch, work, fork = Pr.fi, F.fi, W.fi, C.fi
     run.analysed['channel model'] = dict(actors=[repr(a) for a in model.actors], queues=[repr(c) for c in model.chans],
